@@ -7,6 +7,7 @@
 #include "strops.c"
 #include "vharness.h"
 #define V_STUB_BUG_DIAG
+#define V_STUB_MEMCHR
 #include "stubs.h"
 /* ghost obligation at the allocation of a FOAM node: the node must have room for the number of slots the
  * file claims (g_expect_slots, set by the harness from the count field).  In the must-refuse class the
